@@ -152,6 +152,17 @@ def stepLine (d : DState) (n : Nat) (line : String) : IO (DState × List String)
   | ["mkframe", v, pts, subs] =>
     let f : Frame := { pts := (parsePts pts).getD [], subs := (parseSubs subs).getD [] }
     return (d.setVar v f, [hd])
+  | ["cpframe", v, i] =>
+    -- a by-value copy of a stored frame: as a value, the frame itself
+    match d.cur with
+    | some s => (match s.frames[parseNat! i]? with
+        | some f => return (d.setVar v f, [hd])
+        | none => return (d, [hd]))
+    | none => return (d, [hd])
+  | ["refill", v, pts, subs] =>
+    -- Frame::add(points, analogs) on the caller's object: new content, nothing of the old one is kept or touched
+    let f : Frame := { pts := (parsePts pts).getD [], subs := (parseSubs subs).getD [] }
+    return (d.setVar v f, [hd])
   | "cmut" :: v :: rest =>
     let f := d.getVar v
     let f' : Frame := match rest with
